@@ -42,7 +42,7 @@ Guard(i) == Atoms[i][2]
 \* guard pool for atom i: 1 matching, 2 the next atom's guard, 3 true, 4 an unrelated comparison
 GuardOf(i, k) == CASE k = 1 -> Guard(i) [] k = 2 -> Guard((i % NA) + 1) [] k = 3 -> TT_ [] k = 4 -> B_("less", G_(Pv, "n"), LitL(5))
 
-NK == 22
+NK == 24
 Conn(k, g, g2, u) ==
   CASE k = 1 -> And_(g, u)
     [] k = 2 -> And_(u, g)
@@ -66,6 +66,9 @@ Conn(k, g, g2, u) ==
     [] k = 20 -> And_(And_(TT_, g), u)
     [] k = 21 -> And_(Or_(g, FF_), u)
     [] k = 22 -> And_(Or_(FF_, g), u)
+    \* what an `if` learns in its test holds in the then-branch only: an else-branch that can be true leaks nothing outwards
+    [] k = 23 -> And_(If_(g, TT_, B_("less", G_(Pv, "n"), LitL(5))), u)
+    [] k = 24 -> And_(If_(g, B_("less", LitL(0), G_(Pv, "n")), g2), u)
 
 AnyC == <<"any">>
 Scopes == <<
